@@ -107,3 +107,42 @@ fn k_drop_map_collect_vec_bag() {
     }
     assert!(all_dropped_once(&dl), "C13: after the result is dropped every element must have been dropped exactly once");
 }
+
+// ---- the REAL merge (no stub) on the smallest shape that distinguishes "every vector is emptied" from
+// "emptied up to the first empty one": worker 0 returned nothing, worker 1 one element.
+fn real_merge_vectors<'a>(dl: &'a DropLog) -> Vec<Vec<(usize, D<'a>)>> {
+    let mut v0: Vec<(usize, D<'a>)> = Vec::new();
+    let mut v1: Vec<(usize, D<'a>)> = Vec::with_capacity(1);
+    v1.push((0usize, D { id: 0, v: kani::any(), log: dl }));
+    let mut vs = Vec::with_capacity(2);
+    vs.push(v0);
+    vs.push(v1);
+    vs
+}
+
+#[kani::proof]
+#[kani::unwind(6)]
+fn k_drop_real_merge_vec() {
+    let dl = DropLog { n: Default::default() };
+    {
+        let mut out: Vec<D> = Vec::with_capacity(2);
+        crate::core::map_fil_col::heap_sort_into_vec(real_merge_vectors(&dl), &mut out);
+        assert!(out.len() == 1, "C01: the merge lost or invented an element");
+        assert!(dl.n[0].get() == 0, "C13: the merge dropped an element that it handed to the output (the source vectors must be emptied without dropping)");
+    }
+    assert!(dl.n[0].get() == 1, "C13: after the result is dropped the element must have been dropped exactly once");
+}
+
+#[kani::proof]
+#[kani::unwind(6)]
+fn k_drop_real_merge_pinned_vec() {
+    use orx_pinned_vec::PinnedVec;
+    let dl = DropLog { n: Default::default() };
+    {
+        let mut out: orx_split_vec::SplitVec<D> = orx_split_vec::SplitVec::new();
+        crate::core::map_fil_col::heap_sort_into_pinned_vec(real_merge_vectors(&dl), &mut out);
+        assert!(out.len() == 1, "C01: the merge lost or invented an element");
+        assert!(dl.n[0].get() == 0, "C13: the merge dropped an element that it handed to the output (the source vectors must be emptied without dropping)");
+    }
+    assert!(dl.n[0].get() == 1, "C13: after the result is dropped the element must have been dropped exactly once");
+}
